@@ -343,3 +343,19 @@ pub fn fastx_one(u: &mut Unstructured) {
         finish("C11", "C11/bytes", &c, v);
     }
 }
+
+/// C13: bytes through the BED reader and the GFF readers, judged by the strict line parser
+pub fn tabular_one(u: &mut Unstructured) {
+    init();
+    use crate::props::c13::rawbytes;
+    let r = (|| -> AResult<rawbytes::BytesCase> {
+        let kind = u.int_in_range(0..=3)?;
+        let n = u.len();
+        let rest = u.bytes(n)?;
+        Ok(rawbytes::BytesCase { kind, data: B(rest.to_vec()) })
+    })();
+    if let Ok(c) = r {
+        let v = guarded(rawbytes::check, &c);
+        finish("C13", "C13/raw-bytes", &c, v);
+    }
+}
